@@ -237,6 +237,37 @@ def gen_case(rng, malformed=False, yaml_share=0.25, conflict=False, ctx_kind=Non
             'malformed': malformed, 'conflict': conflict}
 
 
+def gen_rootref_case(rng):
+    """a ROOT-level task refers by name (required or optional input) to a task that exists only INSIDE a namespace (or only at the
+    root while the referring task sits in a namespace): a name without namespace part is looked up in the referring task's own
+    namespace only — the reference is dangling (error) or falls back to its default, it is never wired to the foreign task"""
+    classes = {}
+    prods = []
+    for i, nm in enumerate(rng.sample(['t1', 't2', 'feat', 'raw'], rng.randint(1, 3))):
+        cid = f'K{i}'
+        classes[cid] = {'name': nm, 'group': rng.choice(['', '', 'g']), 'params': [], 'inputs': [], 'abstract': False, 'kind': 'json',
+                        'run_args': [], 'pull': [], 'in_kinds': {}, 'base': 'Task'}
+        prods.append(cid)
+    target = classes[rng.choice(prods)]
+    ref = rng.choice([target['name'], slug(target)])
+    inp = {'by': 'name', 'ref': ref}
+    if rng.random() < 0.5:
+        inp['default'] = rng.choice([None, 5])
+    cons = f'K{len(classes)}'
+    classes[cons] = {'name': 'consumer', 'group': '', 'params': [], 'inputs': [inp], 'abstract': False, 'kind': 'json', 'run_args': [],
+                     'pull': [], 'in_kinds': {}, 'base': 'Task'}
+    ns = rng.choice(['a', 'n', 'train'])
+    shape = rng.choice(['root-refers-into-ns', 'root-refers-into-ns', 'ns-refers-to-root', 'both-present'])
+    if shape == 'root-refers-into-ns':
+        fs = {'main.json': {'tasks': [cons], 'uses': [f'@cfg/p.json as {ns}']}, 'p.json': {'tasks': prods}}
+    elif shape == 'ns-refers-to-root':
+        fs = {'main.json': {'tasks': prods, 'uses': [f'@cfg/c.json as {ns}']}, 'c.json': {'tasks': [cons]}}
+    else:
+        fs = {'main.json': {'tasks': [cons] + prods, 'uses': [f'@cfg/p.json as {ns}']}, 'p.json': {'tasks': prods}}
+    return {'module': gen.fresh_modname(), 'classes': classes, 'files': fs, 'main': 'main.json', 'context': None, 'ctx_kind': 'none',
+            'malformed': False, 'conflict': False, 'family': 'root-ref:' + shape}
+
+
 def gen_wildcard_case(rng):
     """a pipeline module declared by wildcard (`tasks: <module>.*`): every task class of the module, also classes whose Python name
     starts with an underscore, minus abstract ones; with and without an exclusion"""
